@@ -186,7 +186,7 @@ func (d *drv) restOpt(what string, coq bool) {
 	if !coq && len(q.detail) == 0 {
 		return
 	}
-	d.addCase(fmt.Sprintf("AQuiesce %d %d %d %d", q.goroutines, q.fds, q.reserved, q.stray),
+	d.addCase(fmt.Sprintf("AQuiesce %s %s %s %s", CZ(int64(q.goroutines)), CZ(int64(q.fds)), CZ(int64(q.reserved)), CZ(int64(q.stray))),
 		fmt.Sprintf("quiescence after %s: goroutines=%d fds=%d reserved=%d stray=%d", what, q.goroutines, q.fds, q.reserved, q.stray), false)
 }
 
